@@ -248,6 +248,18 @@ def one_grammar(ctx, shape, recursive, linear, modes):
                         raise RuntimeError(f'o_server under {mode} reports __debug__={r2.get("debug")}')
                     a = {k: v for k, v in rep.items() if k not in ('debug', 'message', 'where')}
                     b = {k: v for k, v in r2.items() if k not in ('debug', 'message', 'where')}
+                    # the property speaks of FGGs with a FINITE sum-product: a run that hit kmax (warned) or returned a non-finite value
+                    # is outside it; its gradients come from a singular / ill-conditioned linear system and need not agree between
+                    # processes (false alarm of vp check 5, seed 1: a divergent grammar, gradients inf vs 4.5e15)
+                    def _outside(r_):
+                        v_ = r_.get('value')
+                        return bool(r_.get('warned')) or (isinstance(v_, list) and any(isinstance(x_, float) and not math.isfinite(x_) for x_ in v_))
+                    if _outside(rep) or _outside(r2):
+                        ctx.count('interpreter-modes.outside-property(non-finite or not converged)')
+                        if ('error' in rep) != ('error' in r2):
+                            ctx.fail(f'result under {mode}: one interpreter mode raises, the other does not', dict(case, config=[name, method, jp, dt]), b, a,
+                                     tags=['interpreter-mode', mode, 'error-kind'])
+                        continue
                     if not same_reply(a, b, 1e-4 if dt == 'float32' else 1e-12):
                         jpp = ['in:J_precompute_products'] if 'J_precompute_products' in (rep.get('where') or []) + (r2.get('where') or []) else []
                         ctx.fail(f'result under {mode} differs from the in-process result', dict(case, config=[name, method, jp, dt]), b, a,
